@@ -16,7 +16,10 @@ SRC_SPEC = ("crc.go:*;encoding.go:*;modbus.go:mapExceptionCodeToError,mapErrorTo
             "ModbusClient.ReadUint64s,ModbusClient.ReadUint64,ModbusClient.ReadFloat64s,ModbusClient.ReadFloat64,"
             "ModbusClient.WriteCoil,ModbusClient.WriteCoils,ModbusClient.WriteRegister,ModbusClient.WriteRegisters,"
             "ModbusClient.WriteUint32s,ModbusClient.WriteUint32,ModbusClient.WriteFloat32s,ModbusClient.WriteFloat32,"
-            "ModbusClient.WriteUint64s,ModbusClient.WriteUint64,ModbusClient.WriteFloat64s,ModbusClient.WriteFloat64")
+            "ModbusClient.WriteUint64s,ModbusClient.WriteUint64,ModbusClient.WriteFloat64s,ModbusClient.WriteFloat64;"
+            "server.go:ModbusServer.handleTransport")
+# functions whose external calls (transport, user handler) thread a state-of-the-world value
+SRC_WORLD = "ModbusServer.handleTransport"
 
 
 def regen_src(verif_dir, repo_dir, goenv):
@@ -28,7 +31,7 @@ def regen_src(verif_dir, repo_dir, goenv):
     try:
         try:
             p = subprocess.run(["go", "run", "./cmd/gosrc", "-repo", repo_dir, "-out", tmp, "-name", "SrcPure",
-                                "-spec", SRC_SPEC], cwd=hd, env=goenv,
+                                "-spec", SRC_SPEC, "-world", SRC_WORLD], cwd=hd, env=goenv,
                                stdout=subprocess.PIPE, stderr=subprocess.STDOUT, text=True, timeout=600)
         except Exception as e:  # noqa
             return "gosrc could not be run: %r" % (e,)
